@@ -902,6 +902,27 @@ fn semantic(g: &Graph, root: usize, r: &mut Rng) -> Option<(Graph, String)> {
             *n += 1;
             what = "array length".into();
         }
+        Node::Sender(c) if r.chance(1, 2) => {
+            // same element, other generic: sender<T> and receiver<T> are different layouts
+            let c = *c;
+            h.nodes[target] = Node::Receiver(c);
+            what = "generic kind sender -> receiver".into();
+        }
+        Node::Receiver(c) if r.chance(1, 2) => {
+            let c = *c;
+            h.nodes[target] = Node::Sender(c);
+            what = "generic kind receiver -> sender".into();
+        }
+        Node::Opt(c) if r.chance(1, 3) => {
+            let c = *c;
+            h.nodes[target] = Node::VecT(c);
+            what = "generic kind option -> vec".into();
+        }
+        Node::VecT(c) if r.chance(1, 3) => {
+            let c = *c;
+            h.nodes[target] = Node::Opt(c);
+            what = "generic kind vec -> option".into();
+        }
         Node::Opt(c) | Node::Boxx(c) | Node::VecT(c) | Node::Sender(c) | Node::Receiver(c) => {
             // only named types and leaves, so that no cycle made of generics alone can arise
             let t = other_type(g, *c, r).filter(|&t| matches!(g.nodes[t], Node::Leaf(_) | Node::Struct { .. } | Node::Enum { .. } | Node::Newtype { .. }))?;
